@@ -552,28 +552,17 @@ Spec withDuplicates(Ctx& c, Spec sp, int maxDup, bool& triple) {
   return sp;
 }
 
-Verdict propEquate(Ctx& c) {
-  const uint64_t idSeed = static_cast<uint64_t>(c.pick(0, 9999));
-  sgen::GenOpts o; o.maxRest = 5;
-  bool triple = false;
-  const Spec sp = withDuplicates(c, sgen::genSpec(c, o), 2, triple);
-  const auto table = genTable(c, sp, sp, true, sgen::rare(c, 12) ? 0 : 1);
-  c.show << "equate ids=" << idSeed << "\n" << sp.str("   ") << " table:" << eqStr(table, sp, sp);
-  sgen::debugShow(c);
-  c.exec();
-  ccl::tools::EntityGenerator::VerifSeed(idSeed * 7919ULL + 31ULL);
-  RSForm s; std::vector<EntityUID> uids;
-  if (!sgen::build(s, sp, uids)) return pbt::discard("alias prediction failed");
+// one Equate of `table` (resolved identifiers) on the schema object `s`, which may have been through earlier equations
+struct REq { EntityUID k{}, v{}; int mode{1}; std::string arg; };
+Verdict equateRound(Ctx& c, RSForm& s, const std::vector<REq>& table) {
   const Snap before = sgen::snapshot(s);
-  const EntityUID ghost = ghostUid(before, before);
   EquationOptions opts;
   std::vector<std::tuple<const Row*, const Row*>> pairs;
-  std::vector<const Eq*> eqOf;
+  std::vector<const REq*> eqOf;
   for (const auto& e : table) {
-    const EntityUID k = e.ghost == 1 ? ghost : uids[static_cast<size_t>(e.k)], v = e.ghost == 2 ? ghost : uids[static_cast<size_t>(e.v)];
-    if (opts.ContainsKey(k)) continue;
-    opts.Insert(k, v, Equation{static_cast<Equation::Mode>(e.mode), e.arg});
-    pairs.emplace_back(before.find(k), before.find(v)); eqOf.push_back(&e);
+    if (opts.ContainsKey(e.k)) continue;
+    opts.Insert(e.k, e.v, Equation{static_cast<Equation::Mode>(e.mode), e.arg});
+    pairs.emplace_back(before.find(e.k), before.find(e.v)); eqOf.push_back(&e);
   }
   const TableFacts facts = analyse(pairs, before, 0, before, 0);
   // model-side facts about dependencies
@@ -641,7 +630,7 @@ Verdict propEquate(Ctx& c) {
   TRY(checkStructure(c, views, res, groups, "equate"));
   // text modes as documented by upstream's ExecuteSubstituteTerm / ExecuteReverseSubstituteTerm / ExecuteNewTerm (single equation)
   if (pairs.size() == 1) {
-    const auto& [k, v] = pairs[0]; const Eq& e = *eqOf[0];
+    const auto& [k, v] = pairs[0]; const REq& e = *eqOf[0];
     const Row* r = res.find(view.img.at(v->uid));
     auto rewritten = [&](const Row& o, int f) {
       auto expect = [&](const std::string& a) -> std::optional<std::string> { const Row* t = before.findAlias(a); if (!t) return std::nullopt; return res.find(view.img.at(t->uid))->alias; };
@@ -654,6 +643,71 @@ Verdict propEquate(Ctx& c) {
   }
   if (before.fullyCorrect() && facts.like) { c.label("equate:typification-checked"); TRY(checkTypes(c, views, res, "equate")); }
   else c.count("unconstrained:correctness-of-result(schema incorrect or table not like-with-like)");
+  return pbt::pass();
+}
+
+Verdict propEquate(Ctx& c) {
+  const uint64_t idSeed = static_cast<uint64_t>(c.pick(0, 9999));
+  sgen::GenOpts o; o.maxRest = 5;
+  bool triple = false;
+  const Spec sp = withDuplicates(c, sgen::genSpec(c, o), 2, triple);
+  const auto table = genTable(c, sp, sp, true, sgen::rare(c, 12) ? 0 : 1);
+  c.show << "equate ids=" << idSeed << "\n" << sp.str("   ") << " table:" << eqStr(table, sp, sp);
+  sgen::debugShow(c);
+  c.exec();
+  ccl::tools::EntityGenerator::VerifSeed(idSeed * 7919ULL + 31ULL);
+  RSForm s; std::vector<EntityUID> uids;
+  if (!sgen::build(s, sp, uids)) return pbt::discard("alias prediction failed");
+  const Snap before0 = sgen::snapshot(s);
+  const EntityUID ghost = ghostUid(before0, before0);
+  std::vector<REq> resolved;
+  for (const auto& e : table) resolved.push_back({e.ghost == 1 ? ghost : uids[static_cast<size_t>(e.k)], e.ghost == 2 ? ghost : uids[static_cast<size_t>(e.v)], e.mode, e.arg});
+  return equateRound(c, s, resolved);
+}
+
+// Successive equations on ONE schema object: the object owns its equation processor, and every round must behave as
+// it would on a fresh copy of the schema (translation of this call only, no identifiers of earlier rounds).
+std::vector<REq> genSnapTable(Ctx& c, const Snap& sn) {
+  std::vector<REq> t;
+  if (sn.rows.size() < 2) return t;
+  const int n = c.chance(1, 4) ? 2 : 1;
+  for (int i = 0; i < n; ++i) {
+    std::vector<const Row*> paired;  // rows that have a like partner listed before them (the usual direction: later ~ earlier)
+    for (size_t a = 1; a < sn.rows.size(); ++a) for (size_t b = 0; b < a; ++b) if (sn.rows[a].type == sn.rows[b].type && sn.rows[a].typ == sn.rows[b].typ && sn.rows[a].typed) { paired.push_back(&sn.rows[a]); break; }
+    const Row& k = !paired.empty() && !c.chance(1, 6) ? *paired[static_cast<size_t>(c.ipick(0, static_cast<int>(paired.size()) - 1))] : sn.rows[static_cast<size_t>(c.ipick(0, static_cast<int>(sn.rows.size()) - 1))];
+    std::vector<const Row*> like;
+    for (const auto& r : sn.rows) { if (r.uid == k.uid) break; if (r.type == k.type && r.typ == k.typ) like.push_back(&r); }
+    const Row* v = !like.empty() && !c.chance(1, 5) ? like[static_cast<size_t>(c.ipick(0, static_cast<int>(like.size()) - 1))] : &sn.rows[static_cast<size_t>(c.ipick(0, static_cast<int>(sn.rows.size()) - 1))];
+    const int mode = c.ipick(1, 3);
+    t.push_back({k.uid, v->uid, mode, mode == 3 ? "new term" : ""});
+  }
+  return t;
+}
+
+Verdict propEquateSequence(Ctx& c) {
+  const uint64_t idSeed = static_cast<uint64_t>(c.pick(0, 9999));
+  sgen::GenOpts o; o.maxRest = 6;
+  bool triple = false;
+  const Spec sp = withDuplicates(c, sgen::genSpec(c, o), 2, triple);
+  c.show << "equate sequence ids=" << idSeed << "\n" << sp.str("   ");
+  sgen::debugShow(c);
+  c.exec();
+  ccl::tools::EntityGenerator::VerifSeed(idSeed * 7919ULL + 31ULL);
+  RSForm s; std::vector<EntityUID> uids;
+  if (!sgen::build(s, sp, uids)) return pbt::discard("alias prediction failed");
+  const int rounds = c.ipick(2, 5);
+  int accepted = 0;
+  for (int r = 0; r < rounds; ++r) {
+    const Snap now = sgen::snapshot(s);
+    const auto table = genSnapTable(c, now);
+    if (table.empty()) break;
+    c.show << "\n round " << r << ":";
+    for (const auto& e : table) c.show << " " << now.find(e.k)->alias << "#" << e.k << "~" << now.find(e.v)->alias << "#" << e.v << "/" << e.mode;
+    const size_t sizeBefore = now.rows.size();
+    TRY(equateRound(c, s, table));
+    if (s.List().size() < sizeBefore) { ++accepted; c.label("sequence:accepted-round-" + std::to_string(accepted)); }
+  }
+  c.nontrivial = accepted >= 2;
   return pbt::pass();
 }
 
@@ -742,6 +796,7 @@ int main(int argc, char** argv) {
   std::vector<pbt::Prop> props;
   props.push_back({"synthesis", propSynthesis, 750, 12000, false, false, "pairs of schemas + equation tables through ops::BinarySynthes"});
   props.push_back({"equate", propEquate, 1000, 12000, false, false, "one schema + equation table through Ops().IsEquatable / Equate"});
+  props.push_back({"equate_sequence", propEquateSequence, 400, 6000, false, false, "2-4 successive equation tables through Ops().Equate on one schema object; non-trivial = at least two accepted rounds"});
   props.push_back({"duplicates", propDuplicates, 500, 6000, false, false, "schemas with duplicated constituents through Ops().DeleteDuplicates"});
   props.push_back({"merge", propMerge, 450, 6000, false, false, "pairs of schemas through Ops().MergeWith"});
   return pbt::main(argc, argv, "C12", props);
